@@ -192,6 +192,8 @@ pub struct GenCfg {
     pub object_bias: u32,
     /// only `null` among the nullish types (C05's fragment)
     pub only_null: bool,
+    /// intersections whose members all admit null
+    pub inter_nullable: bool,
 }
 
 impl Default for GenCfg {
@@ -209,6 +211,7 @@ impl Default for GenCfg {
             max_defs: 3,
             object_bias: 1,
             only_null: false,
+            inter_nullable: true,
         }
     }
 }
@@ -467,6 +470,11 @@ impl<'c> G<'c> {
             } else {
                 parts.push(self.object(s, depth, false));
             }
+        }
+        // now and then every member also admits null: (A | null) & (B | null) = (A & B) | null, an intersection
+        // whose value need not be an object
+        if self.cfg.inter_nullable && s.chance(1, 6) {
+            parts = parts.into_iter().map(|p| D::Union(vec![p, D::Null])).collect();
         }
         D::Inter(parts)
     }
